@@ -955,6 +955,13 @@ func (m *lm) opRuleBreak() string {
 	amt := spice.New(1, 0)
 	data := 0
 	to := 1
+	// the rule is about the transaction's issuer, whatever it carries: spice, a contract payload, or both
+	switch rapid.SampledFrom([]string{"spice", "data", "both"}).Draw(m.rt, "bPayload") {
+	case "data":
+		amt, data = spice.Melange{}, 24
+	case "both":
+		data = 7
+	}
 	switch kind {
 	case "self-sealed":
 		from = m.w.NodeWallet(n) // the node's own wallet as issuer
@@ -964,7 +971,7 @@ func (m *lm) opRuleBreak() string {
 		sealer = m.w.RogueWallet(0)
 	case "empty":
 		from = 0
-		amt = spice.Melange{}
+		amt, data = spice.Melange{}, 0
 		sealer = m.w.RogueWallet(0)
 	}
 	if via == "propose" {
@@ -987,7 +994,7 @@ func (m *lm) opRuleBreak() string {
 	if via == "orphan" {
 		// child first: seal an ordinary parent that is withheld, put the rule-breaking vertex on top of it
 		pv := m.w.Apply(sim.Op{K: "craft-parent", L: m.w.OrderIndex(p)}).Vertex
-		res := m.w.Apply(sim.Op{K: "craft", Sealer: sealer, From: from, To: to, C: amt.Currency, S: amt.SupplementaryCurrency, L: m.w.OrderIndex(pv.Hash), R: m.w.OrderIndex(pv.Hash)})
+		res := m.w.Apply(sim.Op{K: "craft", Sealer: sealer, From: from, To: to, C: amt.Currency, S: amt.SupplementaryCurrency, Data: data, L: m.w.OrderIndex(pv.Hash), R: m.w.OrderIndex(pv.Hash)})
 		m.ruleBreak[res.Vertex.Hash] = kind
 		d1 := m.w.Apply(sim.Op{K: "deliver", N: n, V: m.w.OrderIndex(res.Vertex.Hash)})
 		d2 := m.w.Apply(sim.Op{K: "deliver", N: n, V: m.w.OrderIndex(pv.Hash)})
@@ -997,7 +1004,7 @@ func (m *lm) opRuleBreak() string {
 		m.noteResult("C10", rr, "retry")
 		return fmt.Sprintf("rulebreak-orphan(%s at node %d): child=%s parent=%s retry=%s", kind, n, errClass(d1.Err), errClass(d2.Err), errClass(rr.Err))
 	}
-	res := m.w.Apply(sim.Op{K: "craft", Sealer: sealer, From: from, To: to, C: amt.Currency, S: amt.SupplementaryCurrency, L: m.w.OrderIndex(p), R: m.w.OrderIndex(p)})
+	res := m.w.Apply(sim.Op{K: "craft", Sealer: sealer, From: from, To: to, C: amt.Currency, S: amt.SupplementaryCurrency, Data: data, L: m.w.OrderIndex(p), R: m.w.OrderIndex(p)})
 	m.ruleBreak[res.Vertex.Hash] = kind
 	d := m.w.Apply(sim.Op{K: "deliver", N: n, V: m.w.OrderIndex(res.Vertex.Hash)})
 	m.noteResult("C10", d, "AddLeaf")
